@@ -1,6 +1,8 @@
 import Litep2pVerif.Proofs.Wire.Sizes
 import Mathlib.Tactic.Ring
-/-! Round-trip lemmas for the protobuf wire model (varints, keys, fields, Kademlia requests). -/
+/-! Round-trip lemmas for the protobuf wire model: varints, keys, fields, and the generic per-field
+lemmas from which `Proofs/Wire/RoundtripGen.lean` (generated) assembles `decode (encode m) = some m` for
+every message of every schema. -/
 namespace Litep2pVerif.Wire
 
 theorem readVarintAux_writeVarintAux (rest : List Nat) :
@@ -129,72 +131,286 @@ theorem fieldVarint_enc (n : Nat) (rest : List Nat) (hn : n < 2 ^ 64) :
   unfold fieldVarint
   simp [readVarint_writeVarint' _ hn]
 
-/-- Encoding of a Kademlia request (`find_node`, `get_record`, `get_providers_request`): type, key,
-clusterLevelRaw = 10, in tag order, defaults omitted — as prost writes it. -/
-def encodeKadRequest (type : Nat) (key : List Nat) : List Nat :=
-  (if type = 0 then [] else encVarintField 1 type) ++
-  (if key = [] then [] else encBytesField 2 key) ++ encVarintField 10 10
+/-! ## Generic field lemmas
 
-theorem kadRequest_roundtrip (type : Nat) (key : List Nat) (ht : type < 2 ^ 31) (hk : key.length < 2 ^ 64) :
-    KMessage.decode (encodeKadRequest type key) =
-      some { type := Int.ofNat type, clusterLevelRaw := 10, key := key } := by
-  have hc : ∀ st tag wt bs st' rest, KMessage.merge recursionLimit st tag wt bs = some (st', rest) →
-      rest.length ≤ bs.length := fun _ _ _ _ _ _ h => KMessage.merge_consumes h
-  have hI : ∀ n, n < 2 ^ 31 → toI32 n = Int.ofNat n := by
-    intro n hn
-    unfold toI32
-    have h1 : n % 2 ^ 32 = n := Nat.mod_eq_of_lt (by omega)
-    rw [h1, if_pos hn]
-  -- last field
-  have hlast : ∀ m : KMessage, decodeLoop (KMessage.merge recursionLimit) (encVarintField 10 10).length m
-      (encVarintField 10 10) = some { m with clusterLevelRaw := 10 } := by
-    intro m
-    have h1 := readKey_writeKey' 10 0 (by omega) (by omega) (by omega) (writeVarint 10 ++ [])
-    have h2 : KMessage.merge recursionLimit m 10 0 (writeVarint 10 ++ []) =
-        some ({ m with clusterLevelRaw := 10 }, []) := by
-      simp only [KMessage.merge, fieldVarint_enc 10 [] (by omega), Option.map_some]
-      rw [hI 10 (by omega)]; rfl
-    have := decodeLoop_field _ hc (bs := encVarintField 10 10) (by simpa [encVarintField] using h1) h2
-    rw [this]; simp [decodeLoop]
-  -- key field
-  have hkey : ∀ m : KMessage, decodeLoop (KMessage.merge recursionLimit)
-      ((if key = [] then [] else encBytesField 2 key) ++ encVarintField 10 10).length m
-      ((if key = [] then [] else encBytesField 2 key) ++ encVarintField 10 10) =
-      some { m with key := if key = [] then m.key else key, clusterLevelRaw := 10 } := by
-    intro m
-    split
-    · rename_i hk0
-      simp only [List.nil_append]
-      rw [hlast]
-    · rename_i hk0
-      have h1 := readKey_writeKey' 2 2 (by omega) (by omega) (by omega)
-        (writeVarint key.length ++ key ++ encVarintField 10 10)
-      have h2 : KMessage.merge recursionLimit m 2 2 (writeVarint key.length ++ key ++ encVarintField 10 10) =
-          some ({ m with key := key }, encVarintField 10 10) := by
-        simp only [KMessage.merge, fieldBytes_enc key _ hk, Option.map_some]
-      have := decodeLoop_field _ hc (bs := encBytesField 2 key ++ encVarintField 10 10)
-        (by simpa [encBytesField, List.append_assoc] using h1) h2
-      rw [this, hlast]
-  unfold KMessage.decode encodeKadRequest
-  rw [List.append_assoc]
+`run mg st bs` is the message loop with the fuel every decoder of the model uses. A message encoding
+is `seg₁ ++ (seg₂ ++ … (segₙ ++ []))`, one segment per field in tag order; each lemma below moves one
+segment from the input into the state. -/
+
+/-- One `merge_field` step never returns more bytes than it was given. -/
+def Consumes {σ : Type} (mg : σ → Nat → Nat → List Nat → Option (σ × List Nat)) : Prop :=
+  ∀ st tag wt bs st' rest, mg st tag wt bs = some (st', rest) → rest.length ≤ bs.length
+
+@[reducible] def run {σ : Type} (mg : σ → Nat → Nat → List Nat → Option (σ × List Nat)) (st : σ) (bs : List Nat) :
+    Option σ := decodeLoop mg bs.length st bs
+
+theorem run_done {σ : Type} (mg : σ → Nat → Nat → List Nat → Option (σ × List Nat)) (st st' : σ)
+    (h : st = st') : run mg st [] = some st' := by
+  subst h; simp [run, decodeLoop]
+
+/-- A field of a structure: getter, setter and the three lens laws (all `rfl` for a structure). -/
+structure Lens (σ α : Type) where
+  get : σ → α
+  set : σ → α → σ
+  get_set : ∀ st x, get (set st x) = x
+  set_set : ∀ st x y, set (set st x) y = set st y
+  set_get : ∀ st, set st (get st) = st
+
+/-- How one element of a field travels: reader `rd` (applied to the wire type and the bytes after the
+key), conversion `cv` of what was read, encoder `enc tag a = key ++ pay a`, and the law that reading
+an encoded well-formed value gives it back. -/
+structure Scalar (α β : Type) where
+  rd : Nat → List Nat → Option (β × List Nat)
+  wt : Nat
+  cv : β → α
+  enc : Nat → α → List Nat
+  pay : α → List Nat
+  ok : α → Prop
+  wt_le : wt ≤ 5
+  enc_eq : ∀ tag a, enc tag a = writeKey tag wt ++ pay a
+  law : ∀ a rest, ok a → ∃ b, rd wt (pay a ++ rest) = some (b, rest) ∧ cv b = a
+
+theorem toI32_i32ToU64 (i : Int) (h : okI32 i) : toI32 (i32ToU64 i) = i := by
+  obtain ⟨h1, h2⟩ := h
+  unfold toI32 i32ToU64
+  by_cases h0 : 0 ≤ i
+  · have e : (i.toNat : Int) = i := Int.toNat_of_nonneg h0
+    have hlt : i.toNat < 2 ^ 31 := by omega
+    simp only [h0, if_true]
+    rw [Nat.mod_eq_of_lt (by omega : i.toNat < 2 ^ 32), if_pos hlt]
+    exact e
+  · have e : ((-i).toNat : Int) = -i := Int.toNat_of_nonneg (by omega)
+    have hpos : 1 ≤ (-i).toNat := by omega
+    have hle : (-i).toNat ≤ 2 ^ 31 := by omega
+    simp only [h0, if_false]
+    have hm : (2 ^ 64 - (-i).toNat) % 2 ^ 32 = 2 ^ 32 - (-i).toNat := by omega
+    rw [hm, if_neg (by omega)]
+    simp only [Int.ofNat_eq_natCast]
+    omega
+
+theorem i32ToU64_lt (i : Int) (h : okI64 i) : i32ToU64 i < 2 ^ 64 := by
+  obtain ⟨h1, h2⟩ := h
+  unfold i32ToU64
+  split <;> omega
+
+theorem toI64_i32ToU64 (i : Int) (h : okI64 i) : toI64 (i32ToU64 i) = i := by
+  obtain ⟨h1, h2⟩ := h
+  unfold toI64 i32ToU64
+  by_cases h0 : 0 ≤ i
+  · have e : (i.toNat : Int) = i := Int.toNat_of_nonneg h0
+    have hlt : i.toNat < 2 ^ 63 := by omega
+    simp only [h0, if_true]
+    rw [Nat.mod_eq_of_lt (by omega : i.toNat < 2 ^ 64), if_pos hlt]
+    exact e
+  · have e : ((-i).toNat : Int) = -i := Int.toNat_of_nonneg (by omega)
+    have hpos : 1 ≤ (-i).toNat := by omega
+    have hle : (-i).toNat ≤ 2 ^ 63 := by omega
+    simp only [h0, if_false]
+    have hm : (2 ^ 64 - (-i).toNat) % 2 ^ 64 = 2 ^ 64 - (-i).toNat := by omega
+    rw [hm, if_neg (by omega)]
+    simp only [Int.ofNat_eq_natCast]
+    omega
+
+theorem okI32_okI64 {i : Int} (h : okI32 i) : okI64 i := by
+  obtain ⟨h1, h2⟩ := h
+  constructor <;> omega
+
+def Scalar.bytes : Scalar (List Nat) (List Nat) where
+  rd := fieldBytes
+  wt := 2
+  cv := fun v => v
+  enc := encBytesField
+  pay := fun a => writeVarint a.length ++ a
+  ok := okBytes
+  wt_le := by omega
+  enc_eq := fun _ _ => by simp [encBytesField, List.append_assoc]
+  law := fun a rest h => ⟨a, by simpa [List.append_assoc] using fieldBytes_enc a rest h, rfl⟩
+
+def Scalar.string : Scalar (List Nat) (List Nat) where
+  rd := fieldString
+  wt := 2
+  cv := fun v => v
+  enc := encStringField
+  pay := fun a => writeVarint a.length ++ a
+  ok := okString
+  wt_le := by omega
+  enc_eq := fun _ _ => by simp [encStringField, encBytesField, List.append_assoc]
+  law := fun a rest h => ⟨a, by
+    have := fieldBytes_enc a rest h.1
+    simp only [List.append_assoc] at this
+    simp [fieldString, this, h.2], rfl⟩
+
+def Scalar.int32 : Scalar Int Nat where
+  rd := fieldVarint
+  wt := 0
+  cv := fun v => toI32 v
+  enc := encInt32Field
+  pay := fun a => writeVarint (i32ToU64 a)
+  ok := okI32
+  wt_le := by omega
+  enc_eq := fun _ _ => rfl
+  law := fun a rest h => ⟨i32ToU64 a, fieldVarint_enc _ rest (i32ToU64_lt a (okI32_okI64 h)), toI32_i32ToU64 a h⟩
+
+def Scalar.int64 : Scalar Int Nat where
+  rd := fieldVarint
+  wt := 0
+  cv := fun v => toI64 v
+  enc := encInt64Field
+  pay := fun a => writeVarint (i32ToU64 a)
+  ok := okI64
+  wt_le := by omega
+  enc_eq := fun _ _ => rfl
+  law := fun a rest h => ⟨i32ToU64 a, fieldVarint_enc _ rest (i32ToU64_lt a h), toI64_i32ToU64 a h⟩
+
+def Scalar.uint32 : Scalar Nat Nat where
+  rd := fieldVarint
+  wt := 0
+  cv := fun v => toU32 v
+  enc := encUInt32Field
+  pay := fun a => writeVarint a
+  ok := okU32
+  wt_le := by omega
+  enc_eq := fun _ _ => rfl
+  law := fun a rest h => ⟨a, fieldVarint_enc _ rest (by unfold okU32 at h; omega), by
+    unfold okU32 at h; exact Nat.mod_eq_of_lt h⟩
+
+def Scalar.uint64 : Scalar Nat Nat where
+  rd := fieldVarint
+  wt := 0
+  cv := fun v => v
+  enc := encUInt64Field
+  pay := fun a => writeVarint a
+  ok := okU64
+  wt_le := by omega
+  enc_eq := fun _ _ => rfl
+  law := fun a rest h => ⟨a, fieldVarint_enc _ rest h, rfl⟩
+
+def Scalar.bool : Scalar Bool Nat where
+  rd := fieldVarint
+  wt := 0
+  cv := fun v => v != 0
+  enc := encBoolField
+  pay := fun a => writeVarint (if a then 1 else 0)
+  ok := okBool
+  wt_le := by omega
+  enc_eq := fun _ _ => rfl
+  law := fun a rest _ => ⟨if a then 1 else 0, fieldVarint_enc _ rest (by split <;> omega), by cases a <;> rfl⟩
+
+theorem fieldMessage_enc {τ : Type} (sub : Nat → List Nat → Option τ) (depth : Nat) (hd : 1 ≤ depth)
+    (payload rest : List Nat) (v : τ) (hl : payload.length < 2 ^ 64) (hs : sub (depth - 1) payload = some v) :
+    fieldMessage sub depth 2 (writeVarint payload.length ++ payload ++ rest) = some (v, rest) := by
+  have hb := fieldBytes_enc payload rest hl
+  unfold fieldBytes at hb
+  simp only [if_true] at hb
+  unfold fieldMessage
+  have h0 : ¬ depth = 0 := by omega
+  simp only [List.append_assoc] at hb ⊢
+  simp [h0, hb, hs]
+
+/-- A nested message as the element of a field: `dec` one level deeper gives back what `enc` wrote. -/
+def Scalar.msg {τ : Type} (dec : Nat → List Nat → Option τ) (enc : τ → List Nat) (wf : τ → Prop) (depth : Nat)
+    (hd : 1 ≤ depth) (h : ∀ v, wf v → dec (depth - 1) (enc v) = some v) : Scalar τ τ where
+  rd := fun w bs => fieldMessage dec depth w bs
+  wt := 2
+  cv := fun v => v
+  enc := fun tag v => encMessageField tag (enc v)
+  pay := fun v => writeVarint (enc v).length ++ enc v
+  ok := okMsg wf enc
+  wt_le := by omega
+  enc_eq := fun _ _ => by simp [encMessageField, encBytesField, List.append_assoc]
+  law := fun a rest hok => ⟨a, by
+    have := fieldMessage_enc dec depth hd (enc a) rest a hok.2 (h a hok.1)
+    simpa [List.append_assoc] using this, rfl⟩
+
+/-- The core step: one encoded element in front of `rest` is consumed into the state. -/
+theorem run_field {σ α β : Type} {mg : σ → Nat → Nat → List Nat → Option (σ × List Nat)} (hc : Consumes mg)
+    (C : Scalar α β) (tag : Nat) (ht : 1 ≤ tag ∧ tag < 2 ^ 29) (upd : σ → α → σ)
+    (hmg : ∀ st bs, mg st tag C.wt bs = (C.rd C.wt bs).map fun (v, rest) => (upd st (C.cv v), rest))
+    (st : σ) (a : α) (rest : List Nat) (hok : C.ok a) :
+    run mg st (C.enc tag a ++ rest) = run mg (upd st a) rest := by
+  obtain ⟨b, hb, hcv⟩ := C.law a rest hok
+  have hk := readKey_writeKey' tag C.wt ht.1 ht.2 C.wt_le (C.pay a ++ rest)
+  have hm : mg st tag C.wt (C.pay a ++ rest) = some (upd st a, rest) := by
+    rw [hmg, hb, ← hcv]; rfl
+  have := decodeLoop_field mg hc (bs := C.enc tag a ++ rest) (by rw [C.enc_eq, List.append_assoc]; exact hk) hm
+  exact this
+
+/-- proto2 `required` scalar: always written. -/
+theorem run_req {σ α β : Type} {mg : σ → Nat → Nat → List Nat → Option (σ × List Nat)} (hc : Consumes mg)
+    (C : Scalar α β) (tag : Nat) (ht : 1 ≤ tag ∧ tag < 2 ^ 29) (L : Lens σ α)
+    (hmg : ∀ st bs, mg st tag C.wt bs = (C.rd C.wt bs).map fun (v, rest) => (L.set st (C.cv v), rest))
+    (st : σ) (a : α) (rest : List Nat) (hok : C.ok a) :
+    run mg st (C.enc tag a ++ rest) = run mg (L.set st a) rest :=
+  run_field hc C tag ht L.set hmg st a rest hok
+
+/-- proto3 singular scalar: omitted when equal to the default (which the state still holds). -/
+theorem run_plain {σ α β : Type} [DecidableEq α] {mg : σ → Nat → Nat → List Nat → Option (σ × List Nat)}
+    (hc : Consumes mg) (C : Scalar α β) (tag : Nat) (ht : 1 ≤ tag ∧ tag < 2 ^ 29) (L : Lens σ α)
+    (hmg : ∀ st bs, mg st tag C.wt bs = (C.rd C.wt bs).map fun (v, rest) => (L.set st (C.cv v), rest))
+    (d : α) (st : σ) (a : α) (rest : List Nat) (hget : L.get st = d) (hok : C.ok a) :
+    run mg st (encPlain (C.enc tag) d a ++ rest) = run mg (L.set st a) rest := by
+  unfold encPlain
   split
-  · rename_i ht0
-    subst ht0
-    simp only [List.nil_append]
-    rw [hkey]
-    split <;> simp_all
-  · rename_i ht0
-    have h1 := readKey_writeKey' 1 0 (by omega) (by omega) (by omega)
-      (writeVarint type ++ ((if key = [] then [] else encBytesField 2 key) ++ encVarintField 10 10))
-    have h2 : KMessage.merge recursionLimit {} 1 0
-        (writeVarint type ++ ((if key = [] then [] else encBytesField 2 key) ++ encVarintField 10 10)) =
-        some ({ type := Int.ofNat type }, (if key = [] then [] else encBytesField 2 key) ++ encVarintField 10 10) := by
-      simp only [KMessage.merge, fieldVarint_enc type _ (by omega), Option.map_some]
-      rw [hI type ht]
-    have := decodeLoop_field _ hc
-      (bs := encVarintField 1 type ++ ((if key = [] then [] else encBytesField 2 key) ++ encVarintField 10 10))
-      (by simpa [encVarintField, List.append_assoc] using h1) h2
-    rw [this, hkey]
-    split <;> simp_all
+  · rename_i had
+    have e : L.set st a = st := by rw [had, ← hget, L.set_get]
+    rw [e]; rfl
+  · exact run_field hc C tag ht L.set hmg st a rest hok
+
+/-- `Option` scalar: written when `some`. -/
+theorem run_opt {σ α β : Type} {mg : σ → Nat → Nat → List Nat → Option (σ × List Nat)}
+    (hc : Consumes mg) (C : Scalar α β) (tag : Nat) (ht : 1 ≤ tag ∧ tag < 2 ^ 29) (L : Lens σ (Option α))
+    (hmg : ∀ st bs, mg st tag C.wt bs = (C.rd C.wt bs).map fun (v, rest) => (L.set st (some (C.cv v)), rest))
+    (st : σ) (o : Option α) (rest : List Nat) (hget : L.get st = none) (hok : optAll C.ok o) :
+    run mg st (encOpt (C.enc tag) o ++ rest) = run mg (L.set st o) rest := by
+  cases o with
+  | none =>
+    have e : L.set st none = st := by rw [← hget, L.set_get]
+    rw [e]; rfl
+  | some a => exact run_field hc C tag ht (fun st a => L.set st (some a)) hmg st a rest hok
+
+/-- repeated field (bytes, string or message elements): appended one by one. -/
+theorem run_rep {σ α β : Type} {mg : σ → Nat → Nat → List Nat → Option (σ × List Nat)}
+    (hc : Consumes mg) (C : Scalar α β) (tag : Nat) (ht : 1 ≤ tag ∧ tag < 2 ^ 29) (L : Lens σ (List α))
+    (hmg : ∀ st bs, mg st tag C.wt bs =
+      (C.rd C.wt bs).map fun (v, rest) => (L.set st (L.get st ++ [C.cv v]), rest))
+    (st : σ) (l : List α) (rest : List Nat) (hget : L.get st = []) (hok : listAll C.ok l) :
+    run mg st (encRep (C.enc tag) l ++ rest) = run mg (L.set st l) rest := by
+  have gen : ∀ (l : List α) (st : σ), listAll C.ok l →
+      run mg st (encRep (C.enc tag) l ++ rest) = run mg (L.set st (L.get st ++ l)) rest := by
+    intro l
+    induction l with
+    | nil => intro st _; simp only [encRep, List.append_nil, L.set_get, List.nil_append]
+    | cons a l ih =>
+      intro st hall
+      simp only [encRep, List.append_assoc]
+      rw [run_field hc C tag ht (fun st a => L.set st (L.get st ++ [a])) hmg st a _ (hall a (by simp))]
+      rw [ih _ (fun b hb => hall b (by simp [hb]))]
+      simp only [L.get_set, L.set_set, List.append_assoc, List.singleton_append]
+  rw [gen l st hok, hget, List.nil_append]
+
+/-- singular message field: written when `some` (also when default-valued), merged into the value the
+state holds — which is still `none` when the encoder's output is decoded from `{}`. -/
+theorem run_optmsg {σ τ : Type} {mg : σ → Nat → Nat → List Nat → Option (σ × List Nat)} (hc : Consumes mg)
+    (sub : τ → Nat → List Nat → Option τ) (enc : τ → List Nat) (wf : τ → Prop) (dflt : τ) (depth : Nat)
+    (hd : 1 ≤ depth) (hsub : ∀ v, wf v → sub dflt (depth - 1) (enc v) = some v)
+    (tag : Nat) (ht : 1 ≤ tag ∧ tag < 2 ^ 29) (L : Lens σ (Option τ))
+    (hmg : ∀ st bs, mg st tag 2 bs =
+      (fieldMessage (sub ((L.get st).getD dflt)) depth 2 bs).map fun (v, rest) => (L.set st (some v), rest))
+    (st : σ) (o : Option τ) (rest : List Nat) (hget : L.get st = none) (hok : optAll (okMsg wf enc) o) :
+    run mg st (encOpt (fun v => encMessageField tag (enc v)) o ++ rest) = run mg (L.set st o) rest := by
+  cases o with
+  | none =>
+    have e : L.set st none = st := by rw [← hget, L.set_get]
+    rw [e]; rfl
+  | some v =>
+    have hk := readKey_writeKey' tag 2 ht.1 ht.2 (by omega) (writeVarint (enc v).length ++ enc v ++ rest)
+    have hm : mg st tag 2 (writeVarint (enc v).length ++ enc v ++ rest) = some (L.set st (some v), rest) := by
+      rw [hmg, hget]
+      have := fieldMessage_enc (sub dflt) depth hd (enc v) rest v hok.2 (hsub v hok.1)
+      simp only [Option.getD_none, this, Option.map_some]
+    have := decodeLoop_field mg hc
+      (bs := encOpt (fun v => encMessageField tag (enc v)) (some v) ++ rest)
+      (by simpa [encOpt, encMessageField, encBytesField, List.append_assoc] using hk) hm
+    exact this
 
 end Litep2pVerif.Wire
